@@ -242,7 +242,42 @@ def strat_mono(draw, tier):
             'index': draw(st.sampled_from(['range', 'range', 'offset', 'repeated']))}
 
 
+def enum_large(tier, shard, nshards):
+    """tables of several thousand cycles (block-wise implementations have seams), in time order and out of it"""
+    orders = ['time', 'reversed', 'two-halves-interleaved', 'ranked'] if tier == 'quick' else ['time', 'reversed', 'two-halves-interleaved', 'ranked', 'rotated', 'time']
+    for i, order in enumerate(orders):
+        if i % nshards != shard:
+            continue
+        yield {'rows': [4500, 9000, 5200, 4100, 12000, 70000][i], 'order': order, 'center': ['peak', 'trough'][i % 2], 'seed': i}
+
+
+def check_large(case, rec):
+    m = case['rows']
+    k = np.arange(2 * m + 1)
+    gaps = 2 + (k * 7 + case['seed']) % 4                       # 2..5 samples between neighbouring extrema
+    idx = np.concatenate([[3], 3 + np.cumsum(gaps)])[:2 * m + 1]
+    n = int(idx[-1]) + 4
+    t = np.arange(n)
+    x = np.round(3 * np.sin(t * 0.9) + 2 * np.sin(t * 0.37 + 1) + ((t * 2654435761) % 7 - 3) * 0.5)   # integer-valued, tie-rich
+    nm = ref.names(case['center'])
+    df = pd.DataFrame({nm['last']: idx[0:-2:2], nm['center']: idx[1::2], nm['next']: idx[2::2]})
+    if case['order'] == 'reversed':
+        df = df.iloc[::-1].reset_index(drop=True)
+    elif case['order'] == 'two-halves-interleaved':
+        h = len(df) // 2
+        df = pd.concat([df.iloc[h:], df.iloc[:h]]).reset_index(drop=True)       # two recordings / bands stacked the other way round
+    elif case['order'] == 'ranked':
+        df = df.iloc[np.argsort((np.arange(len(df)) * 7919) % len(df), kind='stable')].reset_index(drop=True)
+    elif case['order'] == 'rotated':
+        df = pd.concat([df.iloc[100:], df.iloc[:100]]).reset_index(drop=True)
+    got = guarded(compute_monotonicity, df, x.copy())
+    cmp_exact('monotonicity[%d rows, %s]' % (len(df), case['order']), got, ref.ref_monotonicity(x, df))
+    rec.label('rows:%d' % len(df), 'order:' + case['order'])
+    rec.nontrivial(True)
+
+
 PARTS = [
+    Part('large-tables', check_large, enum=enum_large, shards={'quick': 4, 'thorough': 6}, exhaustive=True, time_cap={'quick': 150, 'thorough': 900}),
     Part('pipeline', check_pipeline, strategy=strat_pipeline, budget={'quick': 800, 'thorough': 30000},
          shards={'quick': 8, 'thorough': 16}),
     Part('synthetic', check_synth, strategy=strat_synth, budget={'quick': 4000, 'thorough': 200000},
